@@ -185,6 +185,23 @@ example :
       (.cons (.mk .other 3 [] (.cons (.mk .nameLoad 4 ["p"] .nil) .nil)) (.cons (.mk .nameLoad 5 ["b"] .nil) .nil))) .nil))
     (labsOf t).Nodup ∧ freeLeaves ["p"] t = [1, 5] ∧ externals false ["p"] t = [1, 5] ∧ externals true ["p"] t = [1, 5] := by decide
 
+/-- the source as it is now: `postStarred` follows its operand (fix 'C04-starred-external-only-if-value-is'); breaks if it reverts -/
+theorem C04_bridge_starred : PonyVerif.Gen.C04Src.starredForced = false := by decide
+
+open PonyVerif.Model.PreTrans in
+/-- with the current source no guard on `Starred` is left: for every tree (names and constants being leaves) and every binding
+    set, a node the model - run with the flag read from the source, as the driver runs it - marks external reads no bound name
+    and holds no lambda -/
+theorem C04_external_sound_now (ctx : List String) (n : Node) (hw : WF false n = true)
+    (he : (classify PonyVerif.Gen.C04Src.starredForced ctx n).ext = true) : usesBound ctx n = false := by
+  rw [C04_bridge_starred] at he
+  exact ext_sound false ctx n hw he
+
+open PonyVerif.Model.PreTrans in
+/-- a tree with a `Starred` node meets the hypothesis now -/
+example : WF false (.mk .other 0 [] (.cons (.mk .nameLoad 1 ["f"] .nil) (.cons (.mk .starred 2 [] (.cons (.mk .nameLoad 3 ["a"] .nil) .nil)) .nil))) = true := by
+  decide
+
 open PonyVerif.Model.PreTrans in
 /-- `a + f(b)` with `p` bound: the whole expression is external, and it is the one member of the externals -/
 example : externals false ["p"] (.mk .other 0 [] (.cons (.mk .nameLoad 1 ["a"] .nil) (.cons (.mk .other 2 []
